@@ -98,7 +98,7 @@ Definition good_b (ls : list sline) : bool :=
   | _ => false
   end.
 
-Definition is_item (t : ftree) : bool := match t with FItem _ _ _ | FMore _ _ _ _ => true | _ => false end.
+Definition is_item (t : ftree) : bool := match t with FItem _ _ _ | FMore _ _ _ _ _ => true | _ => false end.
 (* the list type of a marker: the bullet character, or the delimiter of an ordered marker *)
 Definition mkey (mk : marker) : Z := match mk with MBullet b => b | MOrdered _ d => d end.
 Fixpoint seq_ok_b (ts : list ftree) : bool :=      (* two lists are never neighbours (they would be one list, or their blank line would be the first one's) *)
@@ -129,7 +129,7 @@ Fixpoint wf_b (t : ftree) : bool :=
   | FItem mk pad ts =>
     marker_okb mk && Nat.leb 1 pad && Nat.leb pad 4 && seq_ok_b ts && forallb wf_b ts && good_b (join_blank (map spell ts)) &&
     negb (thematic_start (item_first_line mk pad (join_blank (map spell ts))))
-  | FMore mk pad ts next =>
+  | FMore mk pad ts bl next =>
     marker_okb mk && Nat.leb 1 pad && Nat.leb pad 4 && seq_ok_b ts && forallb wf_b ts && good_b (join_blank (map spell ts)) &&
     negb (thematic_start (item_first_line mk pad (join_blank (map spell ts)))) &&
     is_item next && (mkey mk =? mkey (marker_of next)) && wf_b next      (* the rest of the list: same bullet / same delimiter *)
@@ -205,6 +205,9 @@ Proof.
   rewrite skipn_app, skipn_all2 by lia. replace (S (length a) - length a)%nat with 1%nat by lia. reflexivity.
 Qed.
 
+Lemma skipn_item0 {A} (x : A) (a : list A) b n : n = length a -> skipn (S n) ((x :: a) ++ b) = b.
+Proof. intros ->. change (skipn (S (length a)) ((x :: a) ++ b)) with (skipn (length a) (a ++ b)). rewrite skipn_app, skipn_all, Nat.sub_diag. reflexivity. Qed.
+
 (* ---- lists of several items ---- *)
 Lemma all_decimal_digits ds : ds <> [] -> Forall (fun x => 48 <= x <= 57) ds -> all_decimal ds = true.
 Proof.
@@ -236,7 +239,7 @@ Proof.
     rewrite !removelast_last, !last_char_snoc, (all_decimal_digits (x :: r) Hne Hds), (all_decimal_digits ds' Hne' Hds'). reflexivity.
 Qed.
 
-Fixpoint chain_len (t : ftree) : nat := match t with FMore _ _ _ next => S (chain_len next) | _ => 1%nat end.
+Fixpoint chain_len (t : ftree) : nat := match t with FMore _ _ _ _ next => S (chain_len next) | _ => 1%nat end.
 
 Section Chain.
   Variable md : bool.
@@ -244,24 +247,27 @@ Section Chain.
   Fixpoint chain_items (ln : Z) (t : ftree) : list pre :=
     match t with
     | FItem mk pad ts => [PItem ln (pre_seq md ln ts) (negb md && (1 <? Z.of_nat (length ts))) 0 (Z.of_nat (length (marker_str mk) + pad)) (marker_str mk)]
-    | FMore mk pad ts next =>
+    | FMore mk pad ts bl next =>
       let h := Z.of_nat (length (item_lines mk pad (join_blank (map spell ts)))) in
-      PItem ln (pre_seq md ln ts ++ blank_entry md (ln + h)) (negb md) 0 (Z.of_nat (length (marker_str mk) + pad)) (marker_str mk) :: chain_items (ln + h + 1) next
+      PItem ln (pre_seq md ln ts ++ (if bl then blank_entry md (ln + h) else []))
+            (if bl then negb md else negb md && (1 <? Z.of_nat (length ts))) 0 (Z.of_nat (length (marker_str mk) + pad)) (marker_str mk)
+      :: chain_items (ln + h + (if bl then 1 else 0)) next
     | _ => []
     end.
 
-  Lemma pre_of_more ln mk pad ts next :
-    pre_of md ln (FMore mk pad ts next) =
+  Lemma pre_of_more ln mk pad ts bl next :
+    pre_of md ln (FMore mk pad ts bl next) =
     let h := Z.of_nat (length (item_lines mk pad (join_blank (map spell ts)))) in
-    match pre_of md (ln + h + 1) next with
-    | PList _ items => PList ln (PItem ln (pre_seq md ln ts ++ blank_entry md (ln + h)) (negb md) 0 (Z.of_nat (length (marker_str mk) + pad)) (marker_str mk) :: items)
+    match pre_of md (ln + h + (if bl then 1 else 0)) next with
+    | PList _ items => PList ln (PItem ln (pre_seq md ln ts ++ (if bl then blank_entry md (ln + h) else []))
+                                       (if bl then negb md else negb md && (1 <? Z.of_nat (length ts))) 0 (Z.of_nat (length (marker_str mk) + pad)) (marker_str mk) :: items)
     | other => other
     end.
   Proof. reflexivity. Qed.
 
   Lemma pre_of_chain : forall t ln, is_item t = true -> wf_b t = true -> pre_of md ln t = PList ln (chain_items ln t).
   Proof.
-    induction t as [| | | mk pad ts | mk pad ts next IH | | | ]; intros ln Hi Hw; try discriminate.
+    induction t as [| | | mk pad ts | mk pad ts bl next IH | | | ]; intros ln Hi Hw; try discriminate.
     - reflexivity.
     - rewrite pre_of_more. cbv zeta. cbn [wf_b] in Hw. repeat rewrite andb_true_iff in Hw. destruct Hw as [[[_ Hin] _] Hwn].
       rewrite (IH _ Hin Hwn). reflexivity.
@@ -528,7 +534,7 @@ Section Main.
   Lemma first_line_follower t : is_item t = false -> wf_b t = true ->
     exists l2 more, text_of (spell t) = l2 :: more /\ (forall p, 0 < p -> parse_continuation l2 p = None) /\ parse_marker l2 = None.
   Proof.
-    intros Hi Hw. destruct t as [c body more|ch n content|ts|mk pad ts|mk pad ts next|lv hc hb|rc rn|e0 epre ech edbl ew epost]; [| | |discriminate|discriminate| | |].
+    intros Hi Hw. destruct t as [c body more|ch n content|ts|mk pad ts|mk pad ts bl next|lv hc hb|rc rn|e0 epre ech edbl ew epost]; [| | |discriminate|discriminate| | |].
     - destruct (wf_para c body more Hw) as (Hw' & Hnm & _).
       destruct Hw' as (Hf1 & _ & _ & _). cbn [hd] in Hf1.
       assert (Hc : first_ok c = true).
@@ -670,7 +676,7 @@ Section Main.
       eexists. eexists. eexists. eexists. eexists. split; [reflexivity|]. split; [apply marker_line_cont; assumption|].
       split; [apply (parse_marker_line mk pad c0 body0 Hmk Hpad Hc0)|]. split; [exact Hth|].
       destruct (marker_first mk Hmk) as (m0 & mr & Em & Hm0). rewrite Em. eexists. eexists. split; [reflexivity|exact Hm0]. }
-    destruct t as [c body more|ch n content|ts|mk pad ts|mk pad ts next|lv hc hb|rc rn|e0 epre ech edbl ew epost]; try discriminate.
+    destruct t as [c body more|ch n content|ts|mk pad ts|mk pad ts bl next|lv hc hb|rc rn|e0 epre ech edbl ew epost]; try discriminate.
     - cbn [wf_b] in Hw. cbn [spell marker_of]. rewrite <- (app_nil_r (item_lines mk pad _)). apply G. exact Hw.
     - cbn [wf_b] in Hw. repeat rewrite andb_true_iff in Hw. destruct Hw as [[[Hw _] _] _]. cbn [spell marker_of]. apply G.
       repeat rewrite andb_true_iff. exact Hw.
@@ -689,7 +695,7 @@ Section Main.
         read_list types (tokenize_block types (S f')) fuel (text_of (spell t) ++ tail) ln leader prev acc consumed st =
         (rev acc ++ chain_items md ln t, (consumed + length (text_of (spell t)))%nat, st_after st t).
     Proof.
-      induction t as [| | | mk pad ts | mk pad ts next IH | | | ]; intros Hi Hw Hd tail Htail fuel ln st leader prev acc consumed Hn Hlead Hprev; try discriminate.
+      induction t as [| | | mk pad ts | mk pad ts bl next IH | | | ]; intros Hi Hw Hd tail Htail fuel ln st leader prev acc consumed Hn Hlead Hprev; try discriminate.
       - (* the last item *)
         cbn [wf_b] in Hw. destruct (item_parts mk pad ts Hw) as (Hmk & Hpad & Hs & Hall & c0 & body0 & rest & El & Hc0 & Hb0 & Hrest & Hlast & Hth).
         cbn [spell chain_items st_after] in *. rewrite El in *. rewrite text_item in * by exact Hmk. cbn [hd] in Hprev.
@@ -716,18 +722,65 @@ Section Main.
         cbn [depth] in Hd.
         assert (Hd1 : (S (fold_right (fun t m => Nat.max (depth t) m) 0%nat ts) <= S f')%nat) by lia.
         assert (Hd2 : (depth next <= S f')%nat) by lia.
-        assert (Ehd : hd [] (text_of (spell (FMore mk pad ts next))) = marker_str mk ++ repeat 32 pad ++ c0 :: body0 ++ [10]).
+        assert (Ehd : hd [] (text_of (spell (FMore mk pad ts bl next))) = marker_str mk ++ repeat 32 pad ++ c0 :: body0 ++ [10]).
         { cbn [spell]. rewrite El. unfold text_of. rewrite map_app. fold (text_of (item_lines mk pad (SLine 0 c0 body0 :: rest))).
           rewrite text_item by exact Hmk. reflexivity. }
         rewrite Ehd in Hprev. clear Ehd.
-        cbn [spell chain_items st_after]. rewrite El in *. unfold text_of at 1 2. rewrite map_app. cbn [map render_line].
+        destruct bl.
+        { (* a blank line, then the next item *)
+          cbn [spell chain_items st_after app]. rewrite El in *. unfold text_of at 1 2. rewrite map_app. cbn [map render_line].
+          fold (text_of (item_lines mk pad (SLine 0 c0 body0 :: rest))). fold (text_of (spell next)).
+          rewrite text_item in * by exact Hmk. cbn [hd app] in Hprev.
+          destruct fuel as [|n']; [cbn [chain_len] in Hn; lia|]. cbn [chain_len] in Hn. cbn [read_list].
+          set (L := marker_str mk ++ repeat 32 pad ++ c0 :: body0 ++ [10]) in *.
+          set (w := (length (marker_str mk) + pad)%nat) in *.
+          match goal with |- context [read_item _ _ ?A ln prev st] =>
+            replace A with ((L :: map (embed_line w) rest) ++ NL :: (text_of (spell next) ++ tail)) by (apply app_cons_assoc) end.
+          rewrite E2. cbn [app].
+          match goal with |- context [read_item ?a ?b ?c ln prev st] => replace (read_item a b c ln prev st) with (read_item a b c ln None st) end.
+          2:{ destruct Hprev as [->| ->]; [reflexivity|]. pose proof (parse_marker_line mk pad c0 body0 Hmk Hpad Hc0) as PM. fold L in PM. rewrite PM.
+              cbn [app]. symmetry. apply read_item_prev. exact PM. }
+          assert (Hi2 : item_interrupt types (l2 :: more2 ++ tail) = false).
+          { unfold item_interrupt. rewrite Hm2, Ht2. apply andb_false_r. }
+          assert (Hs2 : same_marker_type (marker_str mk) (marker_str (marker_of next)) = true).
+          { rewrite (same_marker_key mk (marker_of next) Hmk Hmk2), Hk. apply Z.eqb_refl. }
+          pose proof (read_item_next types (tokenize_block types (S f')) mk pad c0 body0 rest Hmk Hpad Hc0 Hrest Hlast
+                        l2 (more2 ++ tail) (i2, p2, marker_str (marker_of next), ct2) ln st (Hc2 (Z.of_nat w) ltac:(unfold w; lia)) Hi2 Hm2 Hs2) as RI.
+          fold L w in RI.
+          match type of RI with _ = ?R => match goal with |- context [read_item ?a ?b ?c ln None st] => replace (read_item a b c ln None st) with R by (symmetry; exact RI) end end. clear RI.
+          change (map render_line (SLine 0 c0 body0 :: rest)) with (text_of (SLine 0 c0 body0 :: rest)). rewrite <- El.
+          rewrite (HQN ts ln st Hs Hall (children_depth ts f' Hd1)).
+          assert (Eok : match leader with None => true | Some l => same_marker_type l (marker_str mk) end = true).
+          { destruct leader as [l|]; [|reflexivity]. destruct Hlead as (mk0 & Hmk0 & -> & Hk0). cbn [marker_of] in Hk0.
+            rewrite (same_marker_key mk0 mk Hmk0 Hmk), Hk0. apply Z.eqb_refl. }
+          rewrite Eok. cbn [negb].
+          assert (Esk : skipn (S (S (length rest))) ((L :: map (embed_line w) rest) ++ NL :: l2 :: more2 ++ tail) = text_of (spell next) ++ tail).
+          { rewrite E2. apply skipn_item. rewrite map_length. reflexivity. }
+          match goal with |- context [@skipn ?T ?k ?A] => replace (@skipn T k A) with (text_of (spell next) ++ tail) by (symmetry; exact Esk) end.
+          assert (Eh : Z.of_nat (length (item_lines mk pad (join_blank (map spell ts)))) = Z.of_nat (S (length rest))).
+          { rewrite El. f_equal. apply (item_lines_length mk pad (c0, body0) rest Hmk). }
+          rewrite (IH Hin Hwn Hd2 tail Htail n' (ln + nlines (S (S (length rest)))) (st_seq st ts)
+                      (match leader with None => Some (marker_str mk) | Some _ => leader end) (Some (i2, p2, marker_str (marker_of next), ct2))).
+          + rewrite Eh. unfold nlines. replace (ln + Z.of_nat (S (S (length rest)))) with (ln + Z.of_nat (S (length rest)) + 1) by lia.
+            cbn [rev]. rewrite <- app_assoc. cbn [app]. unfold st_seq. rewrite El. cbn [length].
+            assert (Elen : (consumed + S (S (length rest)) + length (text_of (spell next)) =
+                            consumed + S (length (map (embed_line w) rest ++ NL :: l2 :: more2)))%nat).
+            { rewrite app_length, map_length, E2. cbn [length]. lia. }
+            rewrite Elen. reflexivity.
+          + lia.
+          + destruct leader as [l|].
+            * destruct Hlead as (mk0 & Hmk0 & -> & Hk0). cbn [marker_of] in Hk0. exists mk0. repeat split; [exact Hmk0|congruence].
+            * exists mk. repeat split; [exact Hmk|exact Hk].
+          + right. rewrite E2. cbn [hd]. symmetry. exact Hm2. }
+        (* the next item follows directly *)
+        cbn [spell chain_items st_after app]. rewrite El in *. unfold text_of at 1 2. rewrite map_app.
         fold (text_of (item_lines mk pad (SLine 0 c0 body0 :: rest))). fold (text_of (spell next)).
         rewrite text_item in * by exact Hmk. cbn [hd app] in Hprev.
         destruct fuel as [|n']; [cbn [chain_len] in Hn; lia|]. cbn [chain_len] in Hn. cbn [read_list].
         set (L := marker_str mk ++ repeat 32 pad ++ c0 :: body0 ++ [10]) in *.
         set (w := (length (marker_str mk) + pad)%nat) in *.
         match goal with |- context [read_item _ _ ?A ln prev st] =>
-          replace A with ((L :: map (embed_line w) rest) ++ NL :: (text_of (spell next) ++ tail)) by (apply app_cons_assoc) end.
+          replace A with ((L :: map (embed_line w) rest) ++ (text_of (spell next) ++ tail)) by (apply app_assoc) end.
         rewrite E2. cbn [app].
         match goal with |- context [read_item ?a ?b ?c ln prev st] => replace (read_item a b c ln prev st) with (read_item a b c ln None st) end.
         2:{ destruct Hprev as [->| ->]; [reflexivity|]. pose proof (parse_marker_line mk pad c0 body0 Hmk Hpad Hc0) as PM. fold L in PM. rewrite PM.
@@ -736,27 +789,27 @@ Section Main.
         { unfold item_interrupt. rewrite Hm2, Ht2. apply andb_false_r. }
         assert (Hs2 : same_marker_type (marker_str mk) (marker_str (marker_of next)) = true).
         { rewrite (same_marker_key mk (marker_of next) Hmk Hmk2), Hk. apply Z.eqb_refl. }
-        pose proof (read_item_next types (tokenize_block types (S f')) mk pad c0 body0 rest Hmk Hpad Hc0 Hrest Hlast
+        pose proof (read_item_tight types (tokenize_block types (S f')) mk pad c0 body0 rest Hmk Hpad Hc0 Hrest Hlast
                       l2 (more2 ++ tail) (i2, p2, marker_str (marker_of next), ct2) ln st (Hc2 (Z.of_nat w) ltac:(unfold w; lia)) Hi2 Hm2 Hs2) as RI.
         fold L w in RI.
         match type of RI with _ = ?R => match goal with |- context [read_item ?a ?b ?c ln None st] => replace (read_item a b c ln None st) with R by (symmetry; exact RI) end end. clear RI.
         change (map render_line (SLine 0 c0 body0 :: rest)) with (text_of (SLine 0 c0 body0 :: rest)). rewrite <- El.
-        rewrite (HQN ts ln st Hs Hall (children_depth ts f' Hd1)).
+        rewrite (HQ ts ln st Hs Hall (children_depth ts f' Hd1)).
         assert (Eok : match leader with None => true | Some l => same_marker_type l (marker_str mk) end = true).
         { destruct leader as [l|]; [|reflexivity]. destruct Hlead as (mk0 & Hmk0 & -> & Hk0). cbn [marker_of] in Hk0.
           rewrite (same_marker_key mk0 mk Hmk0 Hmk), Hk0. apply Z.eqb_refl. }
         rewrite Eok. cbn [negb].
-        assert (Esk : skipn (S (S (length rest))) ((L :: map (embed_line w) rest) ++ NL :: l2 :: more2 ++ tail) = text_of (spell next) ++ tail).
-        { rewrite E2. apply skipn_item. rewrite map_length. reflexivity. }
+        assert (Esk : skipn (S (length rest)) ((L :: map (embed_line w) rest) ++ l2 :: more2 ++ tail) = text_of (spell next) ++ tail).
+        { rewrite E2. apply skipn_item0. rewrite map_length. reflexivity. }
         match goal with |- context [@skipn ?T ?k ?A] => replace (@skipn T k A) with (text_of (spell next) ++ tail) by (symmetry; exact Esk) end.
         assert (Eh : Z.of_nat (length (item_lines mk pad (join_blank (map spell ts)))) = Z.of_nat (S (length rest))).
         { rewrite El. f_equal. apply (item_lines_length mk pad (c0, body0) rest Hmk). }
-        rewrite (IH Hin Hwn Hd2 tail Htail n' (ln + nlines (S (S (length rest)))) (st_seq st ts)
+        rewrite (IH Hin Hwn Hd2 tail Htail n' (ln + nlines (S (length rest))) (st_seq st ts)
                     (match leader with None => Some (marker_str mk) | Some _ => leader end) (Some (i2, p2, marker_str (marker_of next), ct2))).
-        + rewrite Eh. unfold nlines. replace (ln + Z.of_nat (S (S (length rest)))) with (ln + Z.of_nat (S (length rest)) + 1) by lia.
-          cbn [rev]. rewrite <- app_assoc. cbn [app]. unfold st_seq. rewrite El. cbn [length].
-          assert (Elen : (consumed + S (S (length rest)) + length (text_of (spell next)) =
-                          consumed + S (length (map (embed_line w) rest ++ NL :: l2 :: more2)))%nat).
+        + rewrite Eh. unfold nlines. replace (ln + Z.of_nat (S (length rest)) + 0) with (ln + Z.of_nat (S (length rest))) by lia.
+          cbn [rev]. rewrite <- app_assoc. cbn [app]. unfold st_seq. rewrite app_nil_r. cbn [length].
+          assert (Elen : (consumed + S (length rest) + length (text_of (spell next)) =
+                          consumed + S (length (map (embed_line w) rest ++ l2 :: more2)))%nat).
           { rewrite app_length, map_length, E2. cbn [length]. lia. }
           rewrite Elen. reflexivity.
         + lia.
@@ -782,23 +835,29 @@ Section Main.
           rewrite text_item by exact Hmk'. cbn [app hd].
           apply (list_start_line mk pad c0 body0 Hmk' (proj1 Hpad)). apply nonspace_first_ok. exact Hc0. }
         replace l2 with (hd [] (text_of (spell t))) by (rewrite E2; reflexivity).
-        destruct t as [ | | |mk pad ts|mk pad ts next| | | ]; try discriminate.
+        destruct t as [ | | |mk pad ts|mk pad ts bl next| | | ]; try discriminate.
         - cbn [wf_b] in Hw. cbn [spell]. rewrite <- (app_nil_r (item_lines mk pad _)). apply G. exact Hw.
         - cbn [wf_b] in Hw. repeat rewrite andb_true_iff in Hw. destruct Hw as [[[Hw _] _] _]. cbn [spell]. apply G.
           repeat rewrite andb_true_iff. exact Hw. }
       rewrite Ls. change (l2 :: more ++ tail) with ((l2 :: more) ++ tail). rewrite <- E2.
       assert (Hlen : (chain_len t <= S (length (text_of (spell t) ++ tail)))%nat).
-      { clear -Hi. assert (G : forall t0, (chain_len t0 <= S (length (text_of (spell t0))))%nat).
-        { induction t0 as [| | | | mk0 pad0 ts0 next0 IHn | | | ]; cbn [chain_len]; try lia. cbn [spell]. unfold text_of in *. rewrite map_length in *. rewrite app_length. cbn [length]. lia. }
-        specialize (G t). rewrite app_length. lia. }
+      { clear -Hw. assert (G : forall t0, wf_b t0 = true -> (chain_len t0 <= S (length (text_of (spell t0))))%nat).
+        { induction t0 as [| | | | mk0 pad0 ts0 bl0 next0 IHn | | | ]; intros Hw0; cbn [chain_len]; try lia.
+          cbn [wf_b] in Hw0. repeat rewrite andb_true_iff in Hw0. destruct Hw0 as [[[Hw0 _] _] Hwn]. specialize (IHn Hwn).
+          assert (Hw' : marker_okb mk0 && Nat.leb 1 pad0 && Nat.leb pad0 4 && seq_ok_b ts0 && forallb wf_b ts0 && good_b (join_blank (map spell ts0)) &&
+                        negb (thematic_start (item_first_line mk0 pad0 (join_blank (map spell ts0)))) = true) by (repeat rewrite andb_true_iff; exact Hw0).
+          destruct (item_parts mk0 pad0 ts0 Hw') as (Hmk0 & _ & _ & _ & c0 & body0 & rest & El & _).
+          cbn [spell]. rewrite El. unfold text_of in *. rewrite map_length in *. rewrite !app_length.
+          pose proof (item_lines_length mk0 pad0 (c0, body0) rest Hmk0) as EL. cbn [fst snd] in EL. rewrite EL. lia. }
+        specialize (G t Hw). rewrite app_length. lia. }
       rewrite (chain_read t Hi Hw Hd tail Htail (S (length (text_of (spell t) ++ tail))) ln st None None [] 0%nat Hlen I (or_introl eq_refl)).
       cbn [rev app Nat.add]. rewrite (pre_of_chain md t ln Hi Hw).
       assert (Efix : fix_last (chain_items md ln t) = chain_items md ln t).
-      { clear -Hi Hw. revert ln. induction t as [| | | mk pad ts | mk pad ts next IH | | | ]; intros ln; try discriminate.
+      { clear -Hi Hw. revert ln. induction t as [| | | mk pad ts | mk pad ts bl next IH | | | ]; intros ln; try discriminate.
         - cbn [chain_items]. unfold fix_last. cbn [rev app]. f_equal. f_equal.
           destruct md; [cbn [negb andb]; apply andb_false_r|]. cbn [negb andb]. rewrite pre_seq_length. unfold nlines. apply andb_diag.
         - cbn [wf_b] in Hw. repeat rewrite andb_true_iff in Hw. destruct Hw as [[[_ Hin] _] Hwn].
-          cbn [chain_items]. cbv zeta. pose proof (chain_items_nonempty md next (ln + Z.of_nat (length (item_lines mk pad (join_blank (map spell ts)))) + 1) Hin) as Hne.
+          cbn [chain_items]. cbv zeta. pose proof (chain_items_nonempty md next (ln + Z.of_nat (length (item_lines mk pad (join_blank (map spell ts)))) + (if bl then 1 else 0)) Hin) as Hne.
           destruct (chain_items md _ next) as [|y r] eqn:Ec; [contradiction|].
           rewrite fix_last_cons. f_equal. rewrite <- Ec. apply IH; assumption. }
       unfold fix_last in Efix. cbn [rev] in Efix. rewrite Efix. reflexivity.
@@ -837,7 +896,7 @@ Section Main.
 
   Lemma C_from f : (forall f', f = S f' -> Q f' /\ QN f') -> C f.
   Proof.
-    intros HQ t ln st Hw Hd. destruct t as [c body more|ch n content|ts|mk pad ts|mk pad ts next|lv hc hb|rc rn|e0 epre ech edbl ew epost].
+    intros HQ t ln st Hw Hd. destruct t as [c body more|ch n content|ts|mk pad ts|mk pad ts bl next|lv hc hb|rc rn|e0 epre ech edbl ew epost].
     - split; [cbn [spell text_of map]; discriminate|]. intros B _. rewrite para_try_app by exact Hw. reflexivity.
     - split; [destruct (fence_wf ch n content Hw) as ((_ & H3) & _); rewrite fence_text by lia; discriminate|].
       intros B _. rewrite fence_try by exact Hw. reflexivity.
@@ -857,7 +916,7 @@ Section Main.
       change ((qline true l :: map (qline true) ls) ++ NL :: B) with (qline true l :: map (qline true) ls ++ NL :: B).
       rewrite E. rewrite pre_of_quote. cbn [st_after length]. rewrite map_length. reflexivity.
     - apply (C_list f HQ (FItem mk pad ts) ln st eq_refl Hw Hd).
-    - apply (C_list f HQ (FMore mk pad ts next) ln st eq_refl Hw Hd).
+    - apply (C_list f HQ (FMore mk pad ts bl next) ln st eq_refl Hw Hd).
     - destruct (head_wf lv hc hb Hw) as [((H1 & _) & _) _]. split; [rewrite head_text by exact H1; discriminate|].
       intros B _. rewrite head_try by exact Hw. rewrite head_text by exact H1. reflexivity.
     - split; [rewrite rule_text; discriminate|]. intros B _. rewrite rule_try by exact Hw. rewrite rule_text. reflexivity.
@@ -941,7 +1000,7 @@ Section Main.
 
   Lemma P_succ f : Q f -> QN f -> P (S f).
   Proof.
-    intros HQ HQN t ln st Hw Hd. destruct t as [c body more|ch n content|ts|mk pad ts|mk pad ts next|lv hc hb|rc rn|e0 epre ech edbl ew epost].
+    intros HQ HQN t ln st Hw Hd. destruct t as [c body more|ch n content|ts|mk pad ts|mk pad ts bl next|lv hc hb|rc rn|e0 epre ech edbl ew epost].
     - rewrite para_tokenize by exact Hw. reflexivity.
     - rewrite fence_tokenize by exact Hw. reflexivity.
     - cbn [wf_b] in Hw. repeat rewrite andb_true_iff in Hw. destruct Hw as [[Hs Hall] Hg].
@@ -950,7 +1009,7 @@ Section Main.
       rewrite (quote_wraps types true _ (S f) ln st Hq Hne Hok).
       rewrite (HQ ts ln (mkPs false) Hs Hall (children_depth ts f Hd)). cbn [fst]. rewrite pre_of_quote. reflexivity.
     - apply (P_list f HQ HQN (FItem mk pad ts) ln st eq_refl Hw Hd).
-    - apply (P_list f HQ HQN (FMore mk pad ts next) ln st eq_refl Hw Hd).
+    - apply (P_list f HQ HQN (FMore mk pad ts bl next) ln st eq_refl Hw Hd).
     - rewrite head_tokenize by exact Hw. reflexivity.
     - rewrite rule_tokenize by exact Hw. reflexivity.
     - rewrite em_tokenize by exact Hw. reflexivity.
@@ -958,7 +1017,7 @@ Section Main.
 
   Lemma P_zero : P 0.
   Proof.
-    intros t ln st Hw Hd. destruct t as [c body more|ch n content|ts|mk pad ts|mk pad ts next|lv hc hb|rc rn|e0 epre ech edbl ew epost]; [| |cbn [depth] in Hd; lia|cbn [depth] in Hd; lia|cbn [depth] in Hd; lia| | |].
+    intros t ln st Hw Hd. destruct t as [c body more|ch n content|ts|mk pad ts|mk pad ts bl next|lv hc hb|rc rn|e0 epre ech edbl ew epost]; [| |cbn [depth] in Hd; lia|cbn [depth] in Hd; lia|cbn [depth] in Hd; lia| | |].
     - rewrite para_tokenize by exact Hw. reflexivity.
     - rewrite fence_tokenize by exact Hw. reflexivity.
     - rewrite head_tokenize by exact Hw. reflexivity.
@@ -1062,12 +1121,13 @@ Section TokOf.
       let loose := negb md && (1 <? Z.of_nat (length ts)) in
       List (if slen leader =? 1 then None else Some (int_of_digits (removelast leader))) loose
            [ListItem (mkItem leader 0 (Z.of_nat (length leader + pad)) loose) (seq ts)]
-    | FMore mk pad ts next =>
-      (* an item that is not the last: the blank line after it makes it loose (or is its last child, a BlankLine) *)
+    | FMore mk pad ts bl next =>
+      (* an item that is not the last: a blank line after it makes it loose (or is its last child, a BlankLine) *)
       let leader := marker_str mk in
-      let item := ListItem (mkItem leader 0 (Z.of_nat (length leader + pad)) (negb md)) (seq ts ++ blank_tok) in
+      let loose := if bl then negb md else negb md && (1 <? Z.of_nat (length ts)) in
+      let item := ListItem (mkItem leader 0 (Z.of_nat (length leader + pad)) loose) (seq ts ++ (if bl then blank_tok else [])) in
       match tok_of next with
-      | List _ lo items => List (if slen leader =? 1 then None else Some (int_of_digits (removelast leader))) (negb md || lo) (item :: items)
+      | List _ lo items => List (if slen leader =? 1 then None else Some (int_of_digits (removelast leader))) (loose || lo) (item :: items)
       | other => other
       end
     | FHead lv c body => Heading (Z.of_nat lv) [] [RawText (c :: body)]
@@ -1146,7 +1206,7 @@ Section Tokens.
   Proof.
     induction f as [|f IH].
     - intros t ln Hd Hw.
-      destruct t as [c body more|ch n content|ts|mk pad ts|mk pad ts next|lv hc hb|rc rn|e0 epre ech edbl ew epost]; [apply build_para; exact Hw|reflexivity|cbn [depth] in Hd; lia|cbn [depth] in Hd; lia|cbn [depth] in Hd; lia|apply build_head; exact Hw|apply build_rule; exact Hw|apply build_em; exact Hw].
+      destruct t as [c body more|ch n content|ts|mk pad ts|mk pad ts bl next|lv hc hb|rc rn|e0 epre ech edbl ew epost]; [apply build_para; exact Hw|reflexivity|cbn [depth] in Hd; lia|cbn [depth] in Hd; lia|cbn [depth] in Hd; lia|apply build_head; exact Hw|apply build_rule; exact Hw|apply build_em; exact Hw].
     - assert (Kids : forall ts ln, Forall (fun t => (depth t <= f)%nat) ts -> forallb wf_b ts = true ->
                 flat_map (fun e => match build span_types keep fn e with Some t => [t] | None => [] end) (pre_seq md ln ts) = tok_seq md ts).
       { induction ts as [|t0 r IHr]; intros ln0 Hds Hws; [reflexivity|].
@@ -1154,7 +1214,7 @@ Section Tokens.
         cbn [pre_seq flat_map tok_seq]. rewrite (IH t0 ln0) by assumption. cbn [app]. f_equal.
         destruct r as [|t1 r']; [reflexivity|]. rewrite flat_map_app. rewrite IHr by assumption.
         f_equal. unfold blank_entry, blank_tok. destruct md; reflexivity. }
-      intros t. induction t as [c body more|ch n content|ts|mk pad ts|mk pad ts next IHn|lv hc hb|rc rn|e0 epre ech edbl ew epost]; intros ln Hd Hw;
+      intros t. induction t as [c body more|ch n content|ts|mk pad ts|mk pad ts bl next IHn|lv hc hb|rc rn|e0 epre ech edbl ew epost]; intros ln Hd Hw;
         [apply build_para; exact Hw|reflexivity| | | |apply build_head; exact Hw|apply build_rule; exact Hw|apply build_em; exact Hw].
       + cbn [wf_b] in Hw. repeat rewrite andb_true_iff in Hw. destruct Hw as [[_ Hall] _].
         rewrite pre_of_quote. cbn [build]. rewrite Kids; [reflexivity| |exact Hall].
@@ -1168,11 +1228,12 @@ Section Tokens.
         assert (Hd1 : Forall (fun t => (depth t <= f)%nat) ts) by (apply children_depth; lia).
         assert (Hd2 : (depth next <= S f)%nat) by lia.
         rewrite pre_of_more. cbv zeta.
-        set (ln' := ln + Z.of_nat (length (item_lines mk pad (join_blank (map spell ts)))) + 1).
+        set (ln' := ln + Z.of_nat (length (item_lines mk pad (join_blank (map spell ts)))) + (if bl then 1 else 0)).
         specialize (IHn ln' Hd2 Hwn). rewrite (pre_of_chain md next ln' Hin Hwn) in IHn |- *.
         cbn [build] in IHn. injection IHn as IHn.
         cbn [tok_of]. fold (tok_seq md ts). rewrite <- IHn.
-        cbn [build flat_map app existsb i_loose i_leader]. rewrite flat_map_app, (Kids ts ln Hd1 Hall), kids_blank. reflexivity.
+        cbn [build flat_map app existsb i_loose i_leader]. rewrite flat_map_app, (Kids ts ln Hd1 Hall).
+        destruct bl; [rewrite kids_blank|]; reflexivity.
   Qed.
 
   Lemma build_seq ts ln : forallb wf_b ts = true ->
@@ -1213,14 +1274,14 @@ Proof.
     { induction ts as [|t0 r IHr]; intros ln0 Hds; [reflexivity|]. inversion Hds; subst.
       cbn [pre_seq flat_map]. rewrite (IH t0 ln0) by assumption. cbn [app].
       destruct r as [|t1 r']; [reflexivity|]. rewrite flat_map_app, IHr by assumption. unfold blank_entry. destruct md; reflexivity. }
-    intros t. induction t as [c body more|ch n content|ts|mk pad ts|mk pad ts next IHn|lv hc hb|rc rn|e0 epre ech edbl ew epost]; intros ln Hd; try reflexivity.
+    intros t. induction t as [c body more|ch n content|ts|mk pad ts|mk pad ts bl next IHn|lv hc hb|rc rn|e0 epre ech edbl ew epost]; intros ln Hd; try reflexivity.
     + rewrite pre_of_quote. cbn [defs_of]. apply Kids. apply children_depth. cbn [depth] in Hd. exact Hd.
     + rewrite pre_of_item. cbn [defs_of flat_map]. rewrite app_nil_r. apply Kids. apply children_depth. cbn [depth] in Hd. exact Hd.
     + cbn [depth] in Hd. rewrite pre_of_more. cbv zeta.
-      specialize (IHn (ln + Z.of_nat (length (item_lines mk pad (join_blank (map spell ts)))) + 1) ltac:(lia)).
+      specialize (IHn (ln + Z.of_nat (length (item_lines mk pad (join_blank (map spell ts)))) + (if bl then 1 else 0)) ltac:(lia)).
       destruct (pre_of md _ next); try exact IHn.
       cbn [defs_of flat_map] in *. rewrite IHn, app_nil_r, flat_map_app, Kids by (apply children_depth; lia).
-      unfold blank_entry. destruct md; reflexivity.
+      unfold blank_entry. destruct bl, md; reflexivity.
 Qed.
 
 Lemma footnotes_of_seq md ts ln : footnotes_of (pre_seq md ln ts) = [].
